@@ -3,4 +3,4 @@ From Coq Require Extraction.
 From Coq Require Import ExtrOcamlBasic.
 From Verif Require Import Word Heap TimerRun.
 Extraction "Extract/c11_model.ml"
-  hstep dump compact compact_keys empty_heap compute_missed tstep init_state slot_addr capacity.
+  config_create dispatch_after_model after_obs hstep dump compact compact_keys empty_heap compute_missed tstep init_state slot_addr capacity.
